@@ -445,6 +445,58 @@ func c18(r *mon.Run) {
 			goDoc := docs.StructDoc(gen.DeriveN(r.Seed, "c18nrdoc", seed), form)
 			c18Equiv(r, t, "null-reviving-right-hand-sides", i, gen.Chain(nil, st...), goDoc, lower, false)
 		}}
+	// lists built by a multi-select that mix typed slices with scalars, nulls and other typed slices, then flattened,
+	// sliced, filtered; and slices with a zero step on typed slices of every length (an error on both forms)
+	mixMembers := []string{"Strs", "Flts", "Ins", "PIns", "ID", "Count", "In.Tags", "In.Leaves", "PIn", "Any", "Grid", "In.Name", "missing"}
+	tails := [][]gen.Step{{gen.StFlatten()}, {gen.StFlatten(), gen.StFlatten()}, {gen.StFlatten(), gen.StField("Name")}, {gen.StListStar()}, {gen.StFilter(gen.Current())}, {gen.StSliceS("", "", "-1")}, {gen.StFlatten(), gen.StFilter(gen.Current())}, {gen.StIndex(0)}, {gen.StIndex(-1), gen.StFlatten()}}
+	nmix := len(mixMembers) * len(mixMembers) * len(tails) * 4
+	mixw := mon.Workload{Name: "mixed-multi-selects-flattened", N: nmix,
+		Do: func(i int, t *mon.Tally) {
+			k := i
+			form := k % 4
+			k /= 4
+			tail := append([]gen.Step(nil), tails[k%len(tails)]...)
+			k /= len(tails)
+			for q := range tail {
+				if tail[q].K == gen.SField {
+					tail[q] = gen.StField(docs.KeyName(tail[q].Name, i%7 == 3)) // the member name in the capitalisation of this case
+				}
+			}
+			m1, m2 := mixMembers[k%len(mixMembers)], mixMembers[k/len(mixMembers)%len(mixMembers)]
+			lower := i%7 == 3
+			mem := func(p string) *gen.Expr { return gen.Chain(nil, pathSteps(p, lower)...) }
+			var head []gen.Step
+			if form >= 2 {
+				head = []gen.Step{gen.StIndex(0)}
+			}
+			st := append(append(head, gen.StMultiList(mem(m1), mem(m2))), tail...)
+			var tree *gen.Expr = gen.Chain(gen.Current(), st...)
+			goDoc := docs.StructDoc(gen.DeriveN(r.Seed, "c18mixdoc", i%9), form)
+			c18Equiv(r, t, "mixed-multi-selects-flattened", i, tree, goDoc, lower, false)
+		}}
+	zsl := [][3]string{{"", "", "0"}, {"1", "2", "0"}, {"0", "", "0"}, {"", "0", "0"}, {"", "", "1"}, {"5", "", "-1"}}
+	nzs := len(slicePaths) * len(zsl) * 4 * 8
+	zsw := mon.Workload{Name: "zero-and-other-steps-on-typed-slices", N: nzs,
+		Do: func(i int, t *mon.Tally) {
+			k := i
+			seed := k % 8
+			k /= 8
+			form := k % 4
+			k /= 4
+			z := zsl[k%len(zsl)]
+			sp := slicePaths[k/len(zsl)%len(slicePaths)]
+			lower := i%5 == 1
+			st := pathSteps(sp, lower)
+			if form >= 2 {
+				st = append([]gen.Step{gen.StIndex(0)}, st...)
+			}
+			st = append(st, gen.StSliceS(z[0], z[1], z[2]))
+			if i%3 == 2 {
+				st = append(st, gen.StField(docs.KeyName("Name", lower)))
+			}
+			goDoc := docs.StructDoc(gen.DeriveN(r.Seed, "c18zsdoc", seed), form)
+			c18Equiv(r, t, "zero-and-other-steps-on-typed-slices", i, gen.Chain(nil, st...), goDoc, lower, false)
+		}}
 	idxs := []int64{-9, -6, -5, -4, -3, -2, -1, 0, 1, 2, 3, 4, 5, 8}
 	nfi := len(slicePaths) * len(idxs) * 4 * 4
 	fiw := mon.Workload{Name: "far-indices-on-typed-slices", N: nfi,
@@ -559,7 +611,7 @@ func c18(r *mon.Run) {
 			t.Nontrivial("anon:" + expr)
 			t.Count("anonymous / local struct type cases agreeing with the JSON form")
 		}}
-	r.Exec(eq, paths, oddw, ffw, fiw, nrw, emb, anon, safety, hostile)
+	r.Exec(eq, paths, oddw, ffw, fiw, nrw, mixw, zsw, emb, anon, safety, hostile)
 }
 
 func pickKey(operand string) string {
